@@ -606,7 +606,7 @@ Linear_System<Row>::gauss(const dimension_type n_lines_or_equalities) {
       // equalities following it, so that all the elements on the j-th
       // column in these rows become 0.
       for (dimension_type k = i + 1; k < n_lines_or_equalities; ++k) {
-        if (rows[k].expr.get(Variable(j - 1)) != 0) {
+        if (rows[k].expr.get(j) != 0) {
           rows[k].linear_combine(rows[rank], j);
           changed = true;
         }
@@ -655,14 +655,14 @@ Linear_System<Row>
     // looks for the last non-zero element.
     // `j' will be the index of such a element.
     Row& row_k = rows[k];
+    // Note: `j' is 0 (i.e., the index of the inhomogeneous term)
+    // if `row_k' is the inconsistent equality.
     const dimension_type j = row_k.expr.last_nonzero();
-    // TODO: Check this.
-    PPL_ASSERT(j != 0);
 
     // Go through the equalities above `row_k'.
     for (dimension_type i = k; i-- > 0; ) {
       Row& row_i = rows[i];
-      if (row_i.expr.get(Variable(j - 1)) != 0) {
+      if (row_i.expr.get(j) != 0) {
         // Combine linearly `row_i' with `row_k'
         // so that `row_i[j]' becomes zero.
         row_i.linear_combine(row_k, j);
@@ -682,7 +682,7 @@ Linear_System<Row>
     // Since an inequality (or ray or point) cannot be multiplied
     // by a negative factor, the coefficient of the pivot must be
     // forced to be positive.
-    const bool have_to_negate = (row_k.expr.get(Variable(j - 1)) < 0);
+    const bool have_to_negate = (row_k.expr.get(j) < 0);
     if (have_to_negate) {
       neg_assign(row_k.expr);
     }
@@ -695,7 +695,7 @@ Linear_System<Row>
     // Go through all the other rows of the system.
     for (dimension_type i = n_lines_or_equalities; i < nrows; ++i) {
       Row& row_i = rows[i];
-      if (row_i.expr.get(Variable(j - 1)) != 0) {
+      if (row_i.expr.get(j) != 0) {
         // Combine linearly the `row_i' with `row_k'
         // so that `row_i[j]' becomes zero.
         row_i.linear_combine(row_k, j);
